@@ -21,20 +21,36 @@ def check_C19(tier):
                         "instance-dependent classification and the blocklist are exercised",
                         "late ABC registration is not in the pool (it changes the type, not the history)",
                         "spec/ResolverProof.tla: TLAPS proof of C19_HistoryIndependent for histories of any length (TLC: length 3/4)"]
-    cfg = tlc.cfg_text(constants={"Blocklisted": "TRUE", "MaxCalls": str(n)},
+    cfg = tlc.cfg_text(constants={"Blocklisted": "TRUE", "MaxCalls": str(n), "Dev_KeyByAddress": "FALSE"},
                        invariants=["C19_HistoryIndependent", "MemoSound", "ExportHist"])
     res = tlc.run("MC_Resolver", cfg, name="resolver", timeout=600, coverage=True)
     if not res.ok:
         run.machinery_error(f"TLC Resolver: {res.violated} {res.errors[:2]} {res.tail(10)}")
         return run.finish()
     run.add_tlc(res, f"Resolver.tla Blocklisted=TRUE MaxCalls={n}")
-    hists = [val.norm(h) for h in res.records("HIST")]
+    uniq = {}
+    for h in res.records("HIST"):          # (Birth / Death steps repeat the same call history)
+        uniq.setdefault(json.dumps(h, sort_keys=True), h)
+    hists = [val.norm(uniq[k]) for k in sorted(uniq)]
+    run.cov["distinct_call_histories"] = len(hists)
+    if tier == "quick" and len(hists) > 3500:
+        import random
+        hists = random.Random(common.seed()).sample(hists, 3500)
     # vacuity: without the blocklist the model must expose history dependence
-    cfg2 = tlc.cfg_text(constants={"Blocklisted": "FALSE", "MaxCalls": "3"}, invariants=["C19_HistoryIndependent"])
+    cfg2 = tlc.cfg_text(constants={"Blocklisted": "FALSE", "MaxCalls": "3", "Dev_KeyByAddress": "FALSE"},
+                        invariants=["C19_HistoryIndependent"])
     r2 = tlc.run("MC_Resolver", cfg2, name="resolver-selftest", timeout=300)
     if r2.violated != "C19_HistoryIndependent":
         run.machinery_error("self-test: Resolver.tla without the blocklist does not violate C19_HistoryIndependent")
     run.add_tlc(r2, "Resolver.tla Blocklisted=FALSE (must violate: witness of history dependence)")
+    # second deviation: a memo keyed by the address of the type object lets a garbage-collected class bequeath its
+    # category to a later class at the same address
+    cfg3 = tlc.cfg_text(constants={"Blocklisted": "TRUE", "MaxCalls": "3", "Dev_KeyByAddress": "TRUE"},
+                        invariants=["C19_HistoryIndependent"])
+    r3 = tlc.run("MC_Resolver", cfg3, name="resolver-addr", timeout=300)
+    if r3.violated != "C19_HistoryIndependent":
+        run.machinery_error("self-test: Resolver.tla keyed by address does not violate C19_HistoryIndependent")
+    run.cov.setdefault("deviation_witnesses", {})["Dev_KeyByAddress"] = str(r3.violated)
     # histories of UNBOUNDED length: the proof system checks that MemoSound + C19 are inductive
     ok, nobl, tail = tlc.prove("ResolverProof", ["Resolver"])
     if not ok:
@@ -66,5 +82,10 @@ def check_C19(tier):
     for m in rep["probe_mismatches"]:
         run.violation({"op": "probe", "aspect": "end_to_end", "detail": f"after warm-up {m['after_history']} probing "
                        f"{m['probe']} differs from a fresh interpreter: {json.dumps(m['differs'])[:600]}", **m})
+    for m in rep.get("lifetime_mismatches", []):
+        run.violation({"op": m["resolver"], "aspect": "lifetime", "detail": f"{m['resolver']}.get_type(<{m['value']}>) = {m['got']}, "
+                       f"fresh answer {m['fresh']}, after: {m['history']}", **m})
+    run.cov["evaluations"] += rep.get("lifetime_calls", 0)
+    run.cov["class_lifetime_probe_calls"] = rep.get("lifetime_calls", 0)
     run.sample({"history": hists[len(hists) // 2] if hists else None})
     return run.finish()
